@@ -1,9 +1,11 @@
 package contractcourt
 
 import (
+	"errors"
 	"io"
 
 	"github.com/btcsuite/btcd/btcutil/v2"
+	"github.com/lightningnetwork/lnd/chainntnfs"
 	"github.com/lightningnetwork/lnd/channeldb"
 	"github.com/lightningnetwork/lnd/fn/v2"
 	"github.com/lightningnetwork/lnd/lnwallet"
@@ -118,7 +120,7 @@ func (h *htlcOutgoingContestResolver) Resolve() (ContractResolver, error) {
 			return nil, errResolverShuttingDown
 		}
 
-		return nil, h.claimCleanUp(commitSpend)
+		return h.handleSpend(commitSpend)
 
 	// If it hasn't, then we'll watch for both the expiration, and the
 	// sweeping out this output.
@@ -183,12 +185,31 @@ func (h *htlcOutgoingContestResolver) Resolve() (ContractResolver, error) {
 			// party is by revealing the preimage. So we'll perform
 			// our duties to clean up the contract once it has been
 			// claimed.
-			return nil, h.claimCleanUp(commitSpend)
+			return h.handleSpend(commitSpend)
 
 		case <-h.quit:
 			return nil, errResolverShuttingDown
 		}
 	}
+}
+
+// handleSpend is called once the HTLC output has been spent. If the spend
+// reveals the preimage, the contract is cleaned up. A spend without a preimage
+// is our own timeout spend, seen here if we were restored although the switch
+// to the timeout resolver had already happened. There's nothing to extract
+// from it, so we hand over to the timeout resolver, which tells the possible
+// spends apart and deals with each of them.
+func (h *htlcOutgoingContestResolver) handleSpend(
+	spend *chainntnfs.SpendDetail) (ContractResolver, error) {
+
+	err := h.claimCleanUp(spend)
+	if errors.Is(err, errNoPreimageInSpend) {
+		h.log.Infof("%v, transforming into timeout resolver", err)
+
+		return h.htlcTimeoutResolver, nil
+	}
+
+	return nil, err
 }
 
 // report returns a report on the resolution state of the contract.
